@@ -46,6 +46,18 @@ ALLOWED_AXIOMS = {
 }
 
 
+# axioms / primitive specifications declared by Coq's standard library, by module prefix as Print Assumptions prints them
+ALLOWED_PREFIXES = ('Uint63.', 'PrimInt63.', 'PrimFloat.', 'Sint63.', 'FloatAxioms.', 'SpecFloat.', 'PrimArray.',
+                    'ClassicalDedekindReals.', 'FunctionalExtensionality.', 'Classical_Prop.', 'ClassicalEpsilon.',
+                    'ProofIrrelevance.', 'Eqdep.', 'JMeq.', 'Raxioms.', 'Rdefinitions.', 'PropExtensionality.',
+                    'ChoiceFacts.', 'IndefiniteDescription.', 'ClassicalUniqueChoice.', 'Epsilon.', 'Description.',
+                    'Coq.')
+
+
+def axiom_allowed(a):
+    return a in ALLOWED_AXIOMS or a.split('.')[-1] in ALLOWED_AXIOMS or a.startswith(ALLOWED_PREFIXES)
+
+
 def log(*a):
     print(*a, file=sys.stderr, flush=True)
 
@@ -230,7 +242,7 @@ def print_assumptions(props_rel, tag):
         if 'Closed under the global context' in rest:
             res[name] = []
         else:
-            axs = re.findall(r'^([A-Za-z0-9_.\']+)\s*:', rest, re.M)
+            axs = [a for a in re.findall(r'^([A-Za-z0-9_.\']+)\s*:', rest, re.M) if a != 'Axioms']
             res[name] = axs
     return res, out
 
